@@ -134,7 +134,9 @@ class Run:
         self.evaluations += d["evaluations"]
         self.distinct.update(d["distinct"])
         for k, v in d["counters"].items():
-            if isinstance(v, (int, float)):
+            if k.startswith("max_") and isinstance(v, (int, float)):
+                self.counters[k] = max(self.counters.get(k, 0), v)
+            elif isinstance(v, (int, float)):
                 self.counters[k] = self.counters.get(k, 0) + v
             elif isinstance(v, dict):
                 cur = self.counters.setdefault(k, {})
